@@ -365,7 +365,7 @@ fn run_case(env: &Env, src: &str, tr: bool) -> String {
 fn worker(tr: bool, stack_kib: usize) {
     // a runaway case (e.g. a loop that keeps pushing diagnostics) must die by allocation failure, not take the machine down
     unsafe {
-        let lim = libc::rlimit { rlim_cur: 6 << 30, rlim_max: 6 << 30 };
+        let lim = libc::rlimit { rlim_cur: 2 << 30, rlim_max: 2 << 30 };
         libc::setrlimit(libc::RLIMIT_AS, &lim);
     }
     install_hook();
@@ -521,7 +521,7 @@ struct Sup {
     agg: Option<Agg>,
 }
 
-const MAX_HANGS: usize = 6;
+const MAX_HANGS: usize = 3;
 
 /// aggregation of the result lines of an exhaustive stream (millions of lines): passing cases are only counted, failing
 /// cases are grouped by their raw signature with a count and the shortest example; aborts/timeouts are passed through.
